@@ -149,6 +149,13 @@ func genPlanC04(rt *rapid.T, realClock bool) *Plan {
 		total += g.AfterUs
 		p.Gw = append(p.Gw, g)
 	}
+	if rapid.IntRange(0, 2).Draw(rt, "socket-errors") == 0 {
+		// the socket refuses some of the client's transmissions (mostly acknowledgements in these plans):
+		// the telegram is accepted and delivered all the same, the gateway will simply repeat its request
+		for i := 0; i < rapid.IntRange(1, 4).Draw(rt, "n-sock-fail"); i++ {
+			p.FailOut = append(p.FailOut, rapid.IntRange(0, n+1).Draw(rt, "sock-fail-at"))
+		}
+	}
 	// consumer behaviour
 	switch rapid.IntRange(0, 3).Draw(rt, "consumer") {
 	case 0: // always ready
